@@ -380,6 +380,110 @@ def r4_compositions(idx, r):
         raise AnalysisError(f"only {n_fold} material compositions folded")
 
 
+def r5_property_total(idx, r):
+    """A material property method that returns a number on some path returns one (or raises) on every path:
+    a piecewise correlation whose if/elif chain has a gap, or that falls off its end, hands None to its caller."""
+    from ..flow import Flow
+
+    mat = idx.cls("armi.materials.material.Material")
+    if mat is None:
+        raise AnchorMissing("armi.materials.material.Material")
+    n = 0
+    for c in [mat] + list(idx.subclasses(mat)):
+        if not c.module.name.startswith("armi.materials") or ".tests" in c.module.name:
+            continue
+        for name, f in c.methods.items():
+            rets = [x for x in walk_local(f.node) if isinstance(x, ast.Return)]
+            valued = [x for x in rets if x.value is not None and not (isinstance(x.value, ast.Constant) and x.value.value is None)]
+            if not valued:
+                continue  # a procedure
+            if any(isinstance(x, (ast.Yield, ast.YieldFrom)) for x in walk_local(f.node)):
+                continue
+            n += 1
+            try:
+                fl = Flow(f.node, lambda node: []).run()
+            except AnalysisError as e:
+                r.undecided(f"{c.name}.{name}", f, f"control flow outside the analysed fragment: {e}")
+                continue
+            # an explicit `return None` is the author's deliberate "no data" answer (Material.density without a reference density);
+            # falling off the end or a bare `return` in a value-returning function is a gap
+            bad = [e for e in fl.normal_exits() if e.kind == "fall" or (e.kind == "return" and e.node.value is None)]
+            if bad:
+                e = bad[0]
+                where = f"falls off the end of the function" if e.kind == "fall" else f"returns None at line {e.line}"
+                r.violate(f"{c.name}.{name}", f, f"{c.name}.{name} returns a value on {len(valued)} path(s) but one path {where}: for the inputs taking that path "
+                          "(a gap in the if/elif chain over the temperature) the property is None, not a finite number", node=e.node if e.kind == "return" else f.node)
+            else:
+                r.ok(f"{c.name}.{name}", f)
+    if n < 100:
+        raise AnalysisError(f"only {n} value-returning material methods found")
+
+
+def r6_index_getter_agreement(idx, r):
+    """`byFoo` is the table a caller uses to look a nuclide up by the identifier `nuclide.getFoo()` returns:
+    the key under which the table is filled (directly, or through the table it aliases) must be produced by
+    the getter that getFoo resolves to."""
+    NB = "armi.nucDirectory.nuclideBases"
+    m = idx.module(NB)
+    if m is None:
+        raise AnchorMissing(NB)
+    key_getter = {}  # table -> set of getter names used as key
+    alias = {}
+    for f in m.all_funcs():
+        for n in walk_local(f.node):
+            if isinstance(n, ast.Assign) and len(n.targets) == 1:
+                t, v = n.targets[0], n.value
+                if isinstance(t, ast.Subscript) and isinstance(t.value, ast.Name) and t.value.id.startswith("by"):
+                    k = t.slice
+                    if isinstance(k, ast.Call) and isinstance(k.func, ast.Attribute) and k.func.attr.startswith("get") and not k.args:
+                        key_getter.setdefault(t.value.id, set()).add(k.func.attr)
+                elif isinstance(t, ast.Name) and t.id.startswith("by") and isinstance(v, ast.Name) and v.id.startswith("by"):
+                    alias.setdefault(t.id, set()).add(v.id)
+
+    def getters_of(table, seen=()):
+        out = set(key_getter.get(table, ()))
+        for a in alias.get(table, ()):
+            if a not in seen:
+                out |= getters_of(a, seen + (table,))
+        return out
+
+    def resolve_getter(name):
+        """follow `def getX(self): return self.getY()` in the concrete nuclide classes; returns the set of final getter names"""
+        finals = set()
+        for c in m.classes.values():
+            f = c.methods.get(name)
+            if f is None:
+                continue
+            rets = [x for x in walk_local(f.node) if isinstance(x, ast.Return) and x.value is not None]
+            if len(rets) != 1:
+                continue
+            v = rets[0].value
+            if isinstance(v, ast.Name) and v.id == "NotImplementedError":
+                continue
+            if isinstance(v, ast.Call) and isinstance(v.func, ast.Attribute) and dotted(v.func.value) in ("self", "self._base") and v.func.attr.startswith("get") and not v.args:
+                finals |= {v.func.attr} if v.func.attr == name else resolve_getter(v.func.attr)
+            else:
+                finals.add(name)
+        return finals
+
+    n = 0
+    for table in sorted(set(key_getter) | set(alias)):
+        gs = getters_of(table)
+        if not gs:
+            continue
+        want = "get" + table[2:]
+        if not any(want in c.methods for c in m.classes.values()):
+            r.undecided(f"{table}:getter", m, f"no getter named {want} to compare with")
+            continue
+        res = resolve_getter(want)
+        n += 1
+        r.require(bool(res) and res <= {x for g in gs for x in (resolve_getter(g) or {g})}, f"{table}<->{want}", m,
+                  msg=f"table `{table}` is filled under the identifiers returned by {sorted(gs)} but `{want}()` returns the identifier of {sorted(res)}: "
+                      f"looking a nuclide up by its own {want}() misses or returns another nuclide")
+    if n < 3:
+        raise AnalysisError(f"only {n} getter-keyed nuclide tables found")
+
+
 def run(idx, chk):
     chk.explanation = (
         "C19: nuclides.dat, elements.dat, burn-chain.yaml and mcc-nuclides.yaml are parsed as data and linted exhaustively (unique (Z,A,S), N=A-Z, "
@@ -395,3 +499,7 @@ def run(idx, chk):
                  necessary="no two nuclides share an identifier; each lookup returns that same nuclide")
     chk.run_rule("R19.3", "identifier formats embed atomic number, mass number and isomeric state injectively", lambda r: r3_identifier_formats(idx, r), floor=5, necessary="identifiers encode Z, A and state")
     chk.run_rule("R19.4", "every default material composition that folds sums to one (1e-4) with no negative fraction", lambda r: r4_compositions(idx, r), floor=30, necessary="mass fractions summing to one within data precision")
+    chk.run_rule("R19.5", "every value-returning material property method returns a value or raises on every path (no gap in a piecewise correlation)", lambda r: r5_property_total(idx, r), floor=100,
+                 necessary="'finite positive density and finite expansion at every temperature in its stated range'")
+    chk.run_rule("R19.6", "each lookup table byX is keyed by the identifier that getX() returns (also through aliases and delegating getters)", lambda r: r6_index_getter_agreement(idx, r), floor=3,
+                 necessary="'every nuclide can be retrieved through each identifier it has, each lookup returns that same nuclide'")
